@@ -139,7 +139,7 @@ PROPS["C17"]["kinds"] = ["reply", "c17conv"]
 
 PROPS["C17"]["kinds"] = ["reply", "c17conv", "trip"]
 TRIP_TB = ["the trip runs use the real Client and the real Server over net.Pipe; their judgement (CheckTrip.v) is the property text applied to the recorded API inputs, results and backend observations - no model of the composition is involved in it"]
-conv_prop("C14", ["trip"], "trip(C14): every string of a 21-element pool of encoding-significant strings ('+', '=', space, backslash, braces, 'x{41}', hexchar look-alikes, DEL, TAB, 2/3/4-byte UTF-8, empty) in ENVID, AUTH (as local part of a mailbox; empty = <>), ORCPT rfc822 and ORCPT utf-8 x server with/without SMTPUTF8 (unitext vs xtext form) x Size {1, 2^32, 2^63-1, 1000}, UTF8, RET, NOTIFY sets, RRVS instants in 5 zones; address shapes incl. the injection shapes of F25; MailOptions.Body (F14). Oracle: the backend's Mail/Rcpt arguments equal what the caller passed.")
+conv_prop("C14", ["trip"], "trip(C14): every string of a 21-element pool of encoding-significant strings ('+', '=', space, backslash, braces, 'x{41}', hexchar look-alikes, DEL, TAB, 2/3/4-byte UTF-8, empty) in ENVID, AUTH (as local part of a mailbox; empty = <>), ORCPT rfc822 and ORCPT utf-8 x server with/without SMTPUTF8 (unitext vs xtext form) x Size {1, 2^32, 2^63-1, 1000}, UTF8, RET, NOTIFY sets, RRVS instants in 5 zones; address shapes incl. the injection shapes of F25; MailOptions.Body {unset, 7BIT, 8BITMIME, BINARYMIME, wrong case, unknown} x server with/without BINARYMIME x {alone, with every other MAIL option, followed by RCPT and DATA}. Oracle: the backend's Mail/Rcpt arguments equal what the caller passed, Body included (an unset Body may arrive as 8BITMIME, the client's documented default).")
 PROPS["C14"]["trusted_base"] = TRIP_TB
 conv_prop("C16", ["trip"], "trip(C16): all bodies over the tokens {'.', LF, CRLF, 'x'} up to length 5 (7 thorough; every third one beyond length 3 in quick) + 40 random 8-bit bodies with an embedded CRLF.CRLF + bait command x Write partitions {one call, byte by byte, random 2-split} x verdict {accept, reject} x {SMTP, LMTP} x Close once/twice. Oracle: backend octets = normalise(body), envelope as given, Close = verdict, second Close is a local error, and the octets that crossed end with exactly dot_write(body) NOOP QUIT (no second exchange).")
 PROPS["C16"]["trusted_base"] = TRIP_TB
@@ -150,11 +150,11 @@ CLI_TB = ["model Client.v of client.go (every exported method, lazy hello with H
           "the observed-behaviour oracles of CheckCli.v and the expectations stated by the generators in harness/gencli.go ((adv ..), (verd ..), (want ..), (exp ..))",
           "out of the model's scope: reply lines above 2000 octets (client-side lineLimitReader), deadlines, the TLS handshake itself (after a 220 the scripted handshake fails; what is compared is everything written before the first TLS record and the error kind), a '%' in the SASL mechanism name (Auth passes it to fmt as a format)"]
 
-CLI_RULE = ("cli: the real client driven through its API against a scripted stream. c15: all 2^7 subsets of advertised extensions x option-field subsets of MailOptions/RcptOptions (thorough: the full 128 x 129 product); hostile: all strings up to length 3 (thorough 4) over {CR,LF,NUL,SP,<,>,a} in Hello name, Verify addr, Mail from, Rcpt to, EnvelopeID, Auth, OriginalRecipient (both types), Extension name, plus hostile Return / Notify / address-type values; txn: every single transaction with 1..3 recipients x accept/refuse masks x verdict vectors x {callback, none} x {Close once, twice} x {LMTP, SMTP}, and random sequences of 2..3 transactions with Reset / Noop in between; starttls: {not advertised (3 ways), 454, 250, garbage reply, EOF, 220+garbage, 220+injected replies in the same / a later segment, 220+EOF, failing greeting / hello} x 5 follow-up call sequences; auth: 0..3-step scripted mechanisms x initial response {nil, empty, text, binary, all 256 octets} x server replies {334, empty 334, bad base64, two-line 334, 235, 535, garbage}; hello: 7 greetings x 11 EHLO/HELO outcomes x 6 call sequences; sendmail: bodies (incl. > 4096 octets) x outcomes, data-writer misuse; random: random call sequences over random reply streams. A case is distinct if its generated line is.")
+CLI_RULE = ("cli: the real client driven through its API against a scripted stream. c15: all 2^7 subsets of advertised extensions (BINARYMIME added at random) x option-field subsets of MailOptions/RcptOptions incl. the three Body values (thorough: the full 128 x 129 product); body: MailOptions.Body {unset, 7BIT, 8BITMIME, BINARYMIME, wrong case, unknown, hostile} x all 4 subsets of {8BITMIME, BINARYMIME} advertised x other keys x other option fields; hostile: all strings up to length 3 (thorough 4) over {CR,LF,NUL,SP,<,>,a} in Hello name, Verify addr, Mail from, Rcpt to, EnvelopeID, Auth, OriginalRecipient (both types), Extension name, plus hostile Return / Notify / address-type values; txn: every single transaction with 1..3 recipients x accept/refuse masks x verdict vectors x {callback, none} x {Close once, twice} x {LMTP, SMTP}, and random sequences of 2..3 transactions with Reset / Noop in between; starttls: {not advertised (3 ways), 454, 250, garbage reply, EOF, 220+garbage, 220+injected replies in the same / a later segment, 220+EOF, failing greeting / hello} x 5 follow-up call sequences; auth: 0..3-step scripted mechanisms x initial response {nil, empty, text, binary, all 256 octets} x server replies {334, empty 334, bad base64, two-line 334, 235, 535, garbage}; hello: 7 greetings x 11 EHLO/HELO outcomes x 6 call sequences; sendmail: bodies (incl. > 4096 octets) x outcomes, data-writer misuse; random: random call sequences over random reply streams. A case is distinct if its generated line is.")
 
 PROPS["C15"] = {
     "kinds": ["cli"],
-    "rule": CLI_RULE + " Oracle C15: every conn.Write of a command method is one line without CR/LF inside, lines = hello lines + at most the method's own line with the argument verbatim, CR/LF in an argument => local error and nothing written, every parameter after the address is a keyword whose key the scripted EHLO reply advertised, RequireTLS/UTF8 without the key => local error and no MAIL line.",
+    "rule": CLI_RULE + " Oracle C15: every conn.Write of a command method is one line without CR/LF inside, lines = hello lines + at most the method's own line with the argument verbatim, CR/LF in an argument => local error and nothing written, every parameter after the address is a keyword whose key the scripted EHLO reply advertised (BODY=BINARYMIME needs BINARYMIME, any other BODY value 8BITMIME), RequireTLS/UTF8/Body without the key or an unknown Body value => local error and no MAIL line.",
     "trusted_base": CLI_TB,
     "assumptions": ["C15_one_line assumes the state invariant 'quiet' (no data writer open, nothing pending in textproto's write buffer), re-established by every command method (C15_invariant) and by Close (dw_close_quiet); a command issued while the data writer is open makes textproto write the terminator first, and a Write after Close leaves octets pending that travel with the next command (API misuse, modelled and exercised by focus writer-misuse, outside the property)",
                     "Auth: the mechanism NAME must be free of CR/LF (supplied by the sasl.Client, not validated by Auth)"],
